@@ -71,6 +71,17 @@ def register(gen, T):
         nbp = normws(bp)
         sel = re.search(r'let ir = ir\.clone\(\); let ir = if let Some\(pipeline\) = pipeline \{ ir\.select_pipeline\(&pipeline\.name\)\.unwrap\(\) \} else \{ ir \};', nbp)
         out.append(f"def buildClonesAndSelectsByName : Bool := {'true' if sel else 'false'}\n\n")
+        # Module::select_pipeline marks the one pipeline whose name is *equal* to the requested name; assign_api_bindings
+        # takes the default bind group from the marked pipeline
+        irm = T.src("ir/src/ir_module.rs")
+        sp = re.sub(r'\s+', '', fn_body(irm, "select_pipeline"))
+        sel_exact = sp == ("letmutselected=None;for(i,pipeline)inself.pipelines.iter().enumerate(){ifpipeline.name.node==name{"
+                           "assert_eq!(selected,None);selected=Some(i);}}selected?;letmutoutput=self.clone();"
+                           "output.selected_pipeline=selected;Some(output)")
+        ab = re.sub(r'\s+', '', fn_body(irm, "assign_api_bindings"))
+        dset = "letdefault_set=matchself.selected_pipeline{Some(index)=>self.pipelines[index].default_bind_group_index,None=>0,};" in ab
+        out.append(f"def selectPipelineByExactName : Bool := {'true' if sel_exact else 'false'}\n\n")
+        out.append(f"def defaultSetFromSelectedPipeline : Bool := {'true' if dset else 'false'}\n\n")
 
         # --- every textual use of `.pipelines` in non-test sources, classified
         uses = []
@@ -101,3 +112,291 @@ def register(gen, T):
         out.append("\n]\n")
         out.append(T.footer("CompileTables"))
         return "".join(out)
+
+
+def squash(s):
+    """remove all whitespace except where it separates two identifier characters"""
+    s = re.sub(r'\s+', ' ', s).strip()
+    return re.sub(r' ?([^A-Za-z0-9_ ]) ?', r'\1', s)
+
+
+def _register_pipeline_tables(gen, T):
+    @gen("PipelineTables")
+    def pipeline_tables():
+        from rustsrc import ExtractError, fn_body, first_match, match_arms, lean_str, normws
+        rel = "typer/src/typer/pipelines.rs"
+        text = T.src(rel)
+        out = [T.header("PipelineTables", [rel, "typer/src/typer.rs", "ir/src/intrinsic_data.rs"])]
+        pp = fn_body(text, "parse_pipeline")
+        add = fn_body(text, "add_stage")
+        pbs = fn_body(text, "parse_blend_state")
+
+        def str_pats(pats):
+            r = []
+            for p in pats:
+                m = re.fullmatch(r'"([A-Za-z0-9_]+)"', p)
+                if not m:
+                    return None
+                r.append(m.group(1))
+            return r
+
+        # ---- entry pass: property name -> stage
+        i0 = pp.index("let mut remaining_properties")
+        _, arms_text, end1 = first_match(pp, r'^property\.property\.as_str\(\)$', i0)
+        stage_props = []
+        saw_rest = False
+        for pats, guard, result in match_arms(arms_text):
+            if guard is not None:
+                raise ExtractError("guard in the entry-point match")
+            if pats == ["_"]:
+                if squash(result) != "remaining_properties.push(property)":
+                    raise ExtractError("entry-point match: catch-all arm is not `remaining_properties.push(property)`")
+                saw_rest = True
+                continue
+            names = str_pats(pats)
+            m = re.fullmatch(r'add_stage\(&property\.value,ir::ShaderStage::([A-Za-z]+),context,&mut pipeline,?\)\?', squash(result))
+            if not names or not m:
+                raise ExtractError(f"entry-point match arm {pats!r} => {result!r}")
+            for n in names:
+                stage_props.append((n, m.group(1)))
+        if not saw_rest:
+            raise ExtractError("entry-point match has no catch-all arm")
+        out.append("/-- parse_pipeline, first pass: property name -> shader stage handed to add_stage (anything else is kept for the state pass) -/\n")
+        out.append("def stageProps : List (String × String) := " + T.lean_list(f"({lean_str(a)}, {lean_str(b)})" for a, b in stage_props) + "\n\n")
+
+        # ---- state pass: property name -> (kind, needs a graphics pipeline)
+        i1 = pp.index("for property in &remaining_properties")
+        _, arms2, _ = first_match(pp, r'^property\.property\.as_str\(\)$', i1)
+        state_props = []
+        unknown_ok = False
+        guard_rx = r'if is_compute\{return Err\(TyperError::PipelinePropertyRequiresGraphicsPipeline\(property\.property\.location,?\)\);\}'
+        for pats, guard, result in match_arms(arms2):
+            if guard is not None:
+                raise ExtractError("guard in the state match")
+            sq = squash(result)
+            if pats == ["_"]:
+                unknown_ok = re.fullmatch(r'\{return Err\(TyperError::PipelinePropertyUnknown\(property\.property\.location,?\)\);\}', sq) is not None
+                continue
+            names = str_pats(pats)
+            if not names:
+                raise ExtractError(f"state match patterns {pats!r}")
+            needs_gfx = re.search(guard_rx, sq) is not None
+            body = re.sub(guard_rx, '', sq)
+            if re.fullmatch(r'\{let index=\(property\.property\.as_str\(\)\.as_bytes\(\)\[18\]-b\'0\'\)as usize;if gpo\.render_target_formats\.len\(\)<index\+1\{gpo\.render_target_formats\.resize\(index\+1,None\);\}assert!\(gpo\.render_target_formats\[index\]\.is_none\(\)\);gpo\.render_target_formats\[index\]=Some\(extract_string\(&property\.value\)\?\.to_string\(\)\);\}', body):
+                for n in names:
+                    if len(n) != 19 or not n[18].isdigit():
+                        raise ExtractError(f"render target property {n!r}")
+                    state_props.append((n, "rt:" + n[18], needs_gfx))
+            elif re.fullmatch(r'\{assert!\(gpo\.depth_target_format\.is_none\(\)\);gpo\.depth_target_format=Some\(extract_string\(&property\.value\)\?\.to_string\(\)\);\}', body):
+                state_props += [(n, "depth", needs_gfx) for n in names]
+            elif re.fullmatch(r'\{let value=extract_uint32\(&property\.value,context\)\?;pipeline\.default_bind_group_index=value;\}', body):
+                state_props += [(n, "group", needs_gfx) for n in names]
+            elif re.fullmatch(r'\{assert!\(!cull_mode_set\);cull_mode_set=true;gpo\.cull_mode=extract_cull_mode\(property\)\?;\}', body):
+                state_props += [(n, "cull", needs_gfx) for n in names]
+            elif re.fullmatch(r'\{assert!\(!winding_order_set\);winding_order_set=true;gpo\.winding_order=extract_winding_order\(property\)\?;\}', body):
+                state_props += [(n, "winding", needs_gfx) for n in names]
+            elif re.fullmatch(r'\{shared_blend_state=parse_blend_state\(&property\.value,context\)\?;\}', body):
+                state_props += [(n, "blendShared", needs_gfx) for n in names]
+            elif re.fullmatch(r'\{let index=\(property\.property\.as_str\(\)\.as_bytes\(\)\[10\]-b\'0\'\)as usize;gpo\.blend_state\.attachments\[index\]=parse_blend_state\(&property\.value,context\)\?;blend_state_set\[index\]=true;\}', body):
+                for n in names:
+                    if len(n) != 11 or not n[10].isdigit() or int(n[10]) > 7:
+                        raise ExtractError(f"indexed blend property {n!r}")
+                    state_props.append((n, "blend:" + n[10], needs_gfx))
+            else:
+                raise ExtractError(f"state match arm {pats!r} has an unknown body: {sq[:200]}")
+        out.append("/-- parse_pipeline, state pass: property name -> (what the arm does, guarded by `if is_compute { return Err(..RequiresGraphicsPipeline) }`) -/\n")
+        def lean_kind(k):
+            if k.startswith("rt:"):
+                return f".rt {k[3:]}"
+            if k.startswith("blend:"):
+                return f".blend {k[6:]}"
+            return "." + k
+        out.append("inductive StateKind where\n  | rt (i : Nat) | depth | group | cull | winding | blendShared | blend (i : Nat)\n  deriving DecidableEq, Repr\n\n")
+        out.append("def stateProps : List (String × StateKind × Bool) := " + T.lean_list(
+            f"({lean_str(a)}, {lean_kind(b)}, {'true' if c else 'false'})" for a, b, c in state_props) + "\n\n")
+
+        # ---- string -> enum variant tables
+        def enum_table(fn_name, extractor, enum_name):
+            b = fn_body(text, fn_name)
+            _, arms, _ = first_match(b, r'^' + extractor + r'\(&property\.value\)\?$')
+            rows = []
+            ok_default = False
+            for pats, guard, result in match_arms(arms):
+                if pats == ["_"]:
+                    ok_default = re.fullmatch(r'\{return Err\(TyperError::PipelinePropertyArgumentUnknown\(property\.property\.location,?\)\);\}', squash(result)) is not None
+                    continue
+                names = str_pats(pats)
+                m = re.fullmatch(r'ir::' + enum_name + r'::([A-Za-z0-9_]+)', squash(result))
+                if not names or not m or guard is not None:
+                    raise ExtractError(f"{fn_name}: arm {pats!r} => {result!r}")
+                rows += [(n, m.group(1)) for n in names]
+            if not ok_default:
+                raise ExtractError(f"{fn_name}: default arm is not ArgumentUnknown at the property name")
+            return rows
+        for lean_name, fn_name, enum_name in [("cullModes", "extract_cull_mode", "CullMode"),
+                                              ("windingOrders", "extract_winding_order", "WindingOrder"),
+                                              ("blendFactors", "extract_blend_factor", "BlendFactor"),
+                                              ("blendOps", "extract_blend_op", "BlendOp")]:
+            rows = enum_table(fn_name, "extract_string", enum_name)
+            out.append(f"/-- {fn_name}: string literal -> ir::{enum_name} variant (anything else: ArgumentUnknown) -/\n")
+            out.append(f"def {lean_name} : List (String × String) := " + T.lean_list(f"({lean_str(a)}, {lean_str(b)})" for a, b in rows) + "\n\n")
+
+        # ---- defaults of the state
+        ir_text = T.src("ir/src/ir_pipelines.rs")
+
+        def default_variant(enum_name):
+            m = re.search(r'\benum\s+' + enum_name + r'\s*\{(.*?)\}', ir_text, re.S)
+            if not m:
+                raise ExtractError(f"enum {enum_name}")
+            d = re.search(r'#\[default\]\s*([A-Za-z0-9_]+)', m.group(1))
+            if not d:
+                raise ExtractError(f"enum {enum_name} has no #[default]")
+            return d.group(1)
+        bas = re.search(r'impl Default for BlendAttachmentState\s*\{(.*?)\n\}', ir_text, re.S)
+        if not bas:
+            raise ExtractError("Default for BlendAttachmentState")
+        sqd = squash(bas.group(1))
+        defaults = {}
+        for f in ["src_blend", "dst_blend", "src_blend_alpha", "dst_blend_alpha"]:
+            m = re.search(f + r':BlendFactor::([A-Za-z0-9]+),', sqd)
+            if not m:
+                raise ExtractError(f"default of {f}")
+            defaults[f] = m.group(1)
+        for f in ["blend_enabled", "blend_op", "blend_op_alpha", "write_mask"]:
+            if not re.search(f + r':Default::default\(\),', sqd):
+                raise ExtractError(f"default of {f}")
+        cm = re.search(r'impl Default for ComponentMask\{fn default\(\)->Self\{ComponentMask\(0x([0-9A-Fa-f]+)\)\}\}', squash(ir_text))
+        if not cm:
+            raise ExtractError("Default for ComponentMask")
+        out.append("/-- defaults: (cull mode, winding order, blend op, src factor, dst factor, src alpha factor, dst alpha factor, write mask) -/\n")
+        out.append("def stateDefaults : String × String × String × String × String × String × String × Nat := (" + ", ".join([
+            lean_str(default_variant("CullMode")), lean_str(default_variant("WindingOrder")), lean_str(default_variant("BlendOp")),
+            lean_str(defaults["src_blend"]), lean_str(defaults["dst_blend"]), lean_str(defaults["src_blend_alpha"]),
+            lean_str(defaults["dst_blend_alpha"]), str(int(cm.group(1), 16))]) + ")\n\n")
+
+        # ---- blend sub-properties
+        _, arms3, _ = first_match(pbs, r'^property\.property\.as_str\(\)$')
+        sub = []
+        sub_unknown = False
+        for pats, guard, result in match_arms(arms3):
+            sq = squash(result)
+            if pats == ["_"]:
+                sub_unknown = re.fullmatch(r'\{return Err\(TyperError::PipelinePropertyUnknown\(property\.property\.location,?\)\);\}', sq) is not None
+                continue
+            names = str_pats(pats)
+            if not names or guard is not None:
+                raise ExtractError(f"parse_blend_state arm {pats!r}")
+            m = re.fullmatch(r'state\.([a-z_]+)=extract_(bool|blend_factor|blend_op)\((&property\.value|property)\)\?', sq)
+            if m:
+                sub += [(n, m.group(2), m.group(1)) for n in names]
+            elif re.fullmatch(r'\{let value=extract_uint32\(&property\.value,context\)\?;let value=match u8::try_from\(value\)\{Ok\(value\)=>value,_=>\{return Err\(TyperError::PipelinePropertyRequiresIntegerArgument\(property\.value\.location,?\)\);\}\};state\.write_mask=ir::ComponentMask\(value\);\}', sq):
+                sub += [(n, "u8", "write_mask") for n in names]
+            else:
+                raise ExtractError(f"parse_blend_state arm {pats!r}: {sq[:160]}")
+        out.append("/-- parse_blend_state: sub-property -> (value kind, field written) -/\n")
+        kinds = {"bool": ".bool", "blend_factor": ".factor", "blend_op": ".op", "u8": ".u8"}
+        fields = {"blend_enabled": ".blendEnabled", "src_blend": ".srcBlend", "dst_blend": ".dstBlend", "blend_op": ".blendOp",
+                  "src_blend_alpha": ".srcBlendAlpha", "dst_blend_alpha": ".dstBlendAlpha", "blend_op_alpha": ".blendOpAlpha",
+                  "write_mask": ".writeMask"}
+        for a, b, c in sub:
+            if b not in kinds or c not in fields:
+                raise ExtractError(f"parse_blend_state: {a} has kind {b} / field {c}")
+            want = {"bool": ["blend_enabled"], "blend_op": ["blend_op", "blend_op_alpha"], "u8": ["write_mask"],
+                    "blend_factor": ["src_blend", "dst_blend", "src_blend_alpha", "dst_blend_alpha"]}[b]
+            if c not in want:
+                raise ExtractError(f"parse_blend_state: {a} writes {c} with a value of kind {b}")
+        out.append("inductive SubKind where | bool | factor | op | u8\n  deriving DecidableEq, Repr\n\n")
+        out.append("inductive BlendField where\n  | blendEnabled | srcBlend | dstBlend | blendOp | srcBlendAlpha | dstBlendAlpha | blendOpAlpha | writeMask\n  deriving DecidableEq, Repr\n\n")
+        out.append("def blendSubProps : List (String × SubKind × BlendField) := " + T.lean_list(
+            f"({lean_str(a)}, {kinds[b]}, {fields[c]})" for a, b, c in sub) + "\n\n")
+
+        # ---- intrinsic free functions (they live in the same function registry the entry lookup scans)
+        idata = T.src("ir/src/intrinsic_data.rs")
+        m = re.search(r'const INTRINSICS: &\[IntrinsicDefinition\] = &\[(.*?)\n\];', idata, re.S)
+        if not m:
+            raise ExtractError("INTRINSICS table")
+        names = []
+        for mm in re.finditer(r'f!\s*\{\s*[A-Za-z0-9_]+\s+([A-Za-z_][A-Za-z0-9_]*)\s*\(', m.group(1)):
+            if mm.group(1) not in names:
+                names.append(mm.group(1))
+        if len(names) < 50:
+            raise ExtractError("INTRINSICS table: too few names")
+        out.append("/-- names of the intrinsic free functions (registered in the function registry before any user code) -/\n")
+        out.append("def intrinsicFunctionNames : List String := " + T.lean_list(lean_str(n) for n in names) + "\n\n")
+
+        # ---- control skeleton fingerprints (exact text, whitespace squashed)
+        spp, sadd, spbs = squash(pp), squash(add), squash(pbs)
+        typer_rs = squash(T.src("typer/src/typer.rs"))
+        facts = {
+            # the name must be new, checked against the pipelines pushed so far, before anything else
+            "dupNameCheckedFirst": spp.startswith(
+                "if context.module.pipelines.iter().any(|existing|existing.name.node==def.name.node){return Err(TyperError::PipelineAlreadyDefined(def.name.location));}"
+                "let mut pipeline=ir::PipelineDefinition{name:def.name.clone(),default_bind_group_index:0,stages:Vec::new(),graphics_pipeline_state:None,};"),
+            "dupPropsChecked": (
+                "for i in 1..def.properties.len(){let new_property=&def.properties[i];let before_properties=&def.properties[..i];"
+                "for before_prop in before_properties{if new_property.property.as_str()==before_prop.property.as_str(){"
+                "return Err(TyperError::PipelinePropertyDuplicate(new_property.property.location,));}}}") in spp,
+            "entryPassInOrder": "let mut remaining_properties=Vec::new();for property in&def.properties{match property.property.as_str(){" in spp,
+            "noEntryPointChecked": "if pipeline.stages.is_empty(){return Err(TyperError::PipelineNoEntryPoint(pipeline.name.location));}" in spp,
+            "computeFromFirstStage": "let is_compute=pipeline.stages[0].stage==ir::ShaderStage::Compute;" in spp,
+            "stageCombinationChecked": (
+                "if is_compute{if pipeline.stages.len()!=1{return Err(TyperError::PipelineInvalidStageCombination(pipeline.name.location,));}}"
+                "else{for stage in&pipeline.stages{if stage.stage==ir::ShaderStage::Compute{return Err(TyperError::PipelineInvalidStageCombination(pipeline.name.location,));}}}") in spp,
+            "statePassInOrder": "for property in&remaining_properties{match property.property.as_str(){" in spp,
+            "stateUnknownPropertyIsError": unknown_ok,
+            "sharedBlendFillsUnset": "for(i,set)in blend_state_set.iter().enumerate(){if!set{gpo.blend_state.attachments[i]=shared_blend_state;}}" in spp,
+            "stateOnlyOnGraphics": "if!is_compute{pipeline.graphics_pipeline_state=Some(gpo);}else{" in spp,
+            "pushedLast": spp.endswith("context.module.pipelines.push(pipeline);Ok(())"),
+            # add_stage
+            "entryMustBeTrivialIdentifier": sadd.startswith(
+                "let location=entry_name.location;let entry_name=match&entry_name.node{ast::PipelinePropertyValue::Single(ast::Expression::Identifier(id))=>{"
+                "match id.try_trivial(){Some(name)=>name.as_str(),None=>return Err(TyperError::PipelineEntryPointFunctionUnknown(location)),}}"
+                "_=>return Err(TyperError::PipelineEntryPointFunctionUnknown(location)),};"),
+            # the lookup walks the *live* registry of the module on every call: no table, no cache
+            "entryLookupScansLiveRegistry": (
+                "let mut func_id=None;for id in context.module.function_registry.iter(){let name=context.module.function_registry.get_function_name(id);"
+                "if name==entry_name{if func_id.is_some(){return Err(TyperError::PipelineEntryPointFunctionUnknown(location));}func_id=Some(id);}}") in sadd
+                and "let func_id=match func_id{Some(id)=>id,None=>return Err(TyperError::PipelineEntryPointFunctionUnknown(location)),};" in sadd,
+            "templateRejected": (
+                "let is_template=!context.module.function_registry.get_function_signature(func_id).template_params.is_empty();"
+                "if is_template{return Err(TyperError::PipelineEntryPointFunctionUnknown(location));}") in sadd,
+            "bodyRequired": (
+                "let function_impl=match context.module.function_registry.get_function_implementation(func_id){Some(function_impl)=>function_impl,"
+                "None=>return Err(TyperError::PipelineEntryPointFunctionUnknown(location)),};") in sadd,
+            "threadsFromNumThreadsAttribute": (
+                "for attribute in&function_impl.attributes.clone(){if let ir::FunctionAttribute::NumThreads(x,y,z)=attribute{" in sadd
+                and "thread_group_size=Some((x,y,z));}}" in sadd),
+            "stagePushed": sadd.endswith("def.stages.push(ir::PipelineStage{stage,entry_point:func_id,thread_group_size,});Ok(())"),
+            # parse_blend_state
+            "blendNeedsAggregate": spbs.startswith(
+                "let properties=match&properties.node{rssl_ast::PipelinePropertyValue::Single(_)=>{return Err(TyperError::PipelinePropertyArgumentUnknown(properties.location,));}"
+                "rssl_ast::PipelinePropertyValue::Aggregate(properties)=>properties,};let mut state=ir::BlendAttachmentState::default();for property in properties{"),
+            "blendUnknownSubPropertyIsError": sub_unknown,
+            # typer.rs: definitions are processed in file order, a Pipeline block is handed to parse_pipeline where it stands
+            "rootDefinitionsInOrder": "for def in&ast.root_definitions{let mut def_ir=parse_rootdefinition(def,context)?;context.module.root_definitions.append(&mut def_ir);}" in typer_rs,
+            "pipelineHandledInPlace": "ast::RootDefinition::Pipeline(def)=>{pipelines::parse_pipeline(def,context)?;Ok(Vec::new())}" in typer_rs,
+        }
+        out.append("/-- syntactic facts about parse_pipeline / add_stage / parse_blend_state / type_check_internal (exact text, whitespace removed) -/\n")
+        out.append("structure TyperShape where\n" + "".join(f"  {k} : Bool\n" for k in facts) + "  deriving DecidableEq, Repr\n\n")
+        out.append("def typerShape : TyperShape := { " + ", ".join(f"{k} := {'true' if v else 'false'}" for k, v in facts.items()) + " }\n\n")
+
+        # ---- everything pipelines.rs reaches through the typer context
+        uses = set()
+        sq_all = squash(text)
+        for m in re.finditer(r'\bcontext((?:\.[a-z_][a-z0-9_]*)*)', sq_all):
+            tail = m.group(1)
+            nxt = sq_all[m.end():m.end() + 1]
+            # a trailing `(` means the last component is a method call
+            uses.add("context" + tail + ("()" if nxt == "(" and tail else ""))
+        out.append("/-- every way pipelines.rs touches the typer context (field paths and method calls, textual) -/\n")
+        out.append("def contextUses : List String := " + T.lean_list(lean_str(u) for u in sorted(uses)) + "\n")
+        out.append(T.footer("PipelineTables"))
+        return "".join(out)
+
+
+_old_register = register
+
+
+def register(gen, T):  # noqa: F811
+    _old_register(gen, T)
+    _register_pipeline_tables(gen, T)
